@@ -105,6 +105,7 @@ static const int PREBUF[] = {0, 1, 2, 3, 5, 8, 16, 64, 255, 256, 257, 1000};
 DEFOP(print) {
     MVal *x = w.pick(st.A(0), st.A(1), [&](MVal *) { return true; });
     if (!x) { w.noop(st, "no node"); return; }
+    if ((((uint64_t)st.A(1)) / 5) % 2 == 0) x = mv_root(x);   // half of the prints take the whole tree, the others any node of it
     std::string why;
     if (!domain_printable(x, false, false, true, 0, why)) { w.noop(st, "not printable"); return; }
     int variant = (int)((uint64_t)st.A(2) % 4);
@@ -123,7 +124,13 @@ DEFOP(print) {
     char *t = nullptr;
     if (variant == 0) t = cJSON_Print(x->c);
     else if (variant == 1) t = cJSON_PrintUnformatted(x->c);
-    else t = cJSON_PrintBuffered(x->c, PREBUF[(uint64_t)st.A(4) % 12], fmt);
+    else {
+        // initial buffer size: the table of boundary sizes, or any size below 600 (each reservation site of the printer
+        // becomes the one that has to grow the buffer for some size)
+        uint64_t a4 = (uint64_t)st.A(4);
+        int prebuffer = ((a4 / 12) & 1) ? (int)((a4 / 24) % 600) : PREBUF[a4 % 12];
+        t = cJSON_PrintBuffered(x->c, prebuffer, fmt);
+    }
     TextGuard g(t);
     if (w.tolerate_failure(t == nullptr)) return;
     if (!t) { w.discard("a print call of the stage failed (print variant " + I(variant) + " returned NULL): the print properties own that"); return; }
